@@ -575,3 +575,72 @@ func VP_C01_long_bytearrays() {
 	vp.Assert(string(w.b) == string(doc), "encoder output == reference bytes")
 	vp.Cover("end")
 }
+
+type vpOmitIn struct {
+	X int16 `nbt:"x"`
+}
+
+type vpOmit struct {
+	P  *int32    `nbt:"p,omitempty"`
+	Q  *string   `nbt:"q,omitempty"`
+	B  *bool     `nbt:"b,omitempty"`
+	A  any       `nbt:"a,omitempty"`
+	In *vpOmitIn `nbt:"in,omitempty"`
+	Z  int8      `nbt:"z,omitempty"`
+}
+
+// omitempty combined with pointer and interface fields: a nil pointer or
+// interface is omitted, a non-nil one is written even when what it holds is zero
+// (the field is present, its value is the zero value); plain fields are omitted
+// when zero. Encoder output against the reference bytes, every combination.
+func VP_C01_omitempty_indirect() {
+	var v vpOmit
+	var want []byte
+	want = append(want, TagCompound)
+	pv, qv, bv := vp.Int32(), string(vp.Bytes(vp.Choice(2))), vp.Bool()
+	if vp.Bool() {
+		v.P = &pv
+		want = append(append(want, vpTagHdr(TagInt, "p")...), vpBE(uint64(uint32(pv)), 4)...)
+	}
+	if vp.Bool() {
+		v.Q = &qv
+		want = append(append(want, vpTagHdr(TagString, "q")...), vpStr(qv)...)
+	}
+	if vp.Bool() {
+		v.B = &bv
+		b := byte(0)
+		if bv {
+			b = 1
+		}
+		want = append(append(want, vpTagHdr(TagByte, "b")...), b)
+	}
+	switch vp.Choice(3) {
+	case 1:
+		av := vp.Int64()
+		v.A = av
+		want = append(append(want, vpTagHdr(TagLong, "a")...), vpBE(uint64(av), 8)...)
+	case 2:
+		as := string(vp.Bytes(vp.Choice(2)))
+		v.A = as
+		want = append(append(want, vpTagHdr(TagString, "a")...), vpStr(as)...)
+	}
+	if vp.Bool() {
+		v.In = &vpOmitIn{X: vp.Int16()}
+		want = append(append(want, vpTagHdr(TagCompound, "in")...), vpTagHdr(TagShort, "x")...)
+		want = append(append(want, vpBE(uint64(uint16(v.In.X)), 2)...), 0)
+	}
+	v.Z = vp.Int8()
+	if v.Z != 0 {
+		want = append(append(want, vpTagHdr(TagByte, "z")...), byte(v.Z))
+	}
+	want = append(want, 0)
+	var w vpBuf
+	e := NewEncoder(&w)
+	e.NetworkFormat(true)
+	vp.Assert(e.Encode(v, "") == nil, "Encode err==nil")
+	vp.Assert(len(w.b) == len(want), "encoded length == reference document")
+	for i := 0; i < len(want) && i < len(w.b); i++ {
+		vp.Assert(w.b[i] == want[i], "encoded bytes == reference document")
+	}
+	vp.Cover("end")
+}
